@@ -85,7 +85,7 @@ def insitu(ctx):
         for n in rejected:
             t = traces[n]
             cl = ",".join(clauses.get(n, ["?"]))
-            compound = (t["level"] == "update" and t["iterations"] > 1 and not t["retried"] and (owner[n], t["label"]) in first_ok
+            compound = (t["level"] == "update" and t["iterations"] > 1 and (owner[n], t["label"]) in first_ok
                         and set(clauses.get(n, [])) <= {"AnsweredImpliesEquation", "AnsweredIsPhysicalBranch"})
             key = f"{SCREENING_KEY}:{owner[n]}" if compound else f"C02:{cl}:insitu:{t['family']}:{owner[n]}"
             groups.setdefault(key, []).append(n)
